@@ -135,7 +135,14 @@ func (m *Need) Decide(b []byte) string {
 	return "no"
 }
 
+// OnMatch, when set, observes the connection at every evaluation of a Need matcher (e.g. to
+// track the high-water mark of the matching buffer through a white-box accessor).
+var OnMatch func(cx *layer4.Connection)
+
 func (m *Need) Match(cx *layer4.Connection) (bool, error) {
+	if OnMatch != nil {
+		OnMatch(cx)
+	}
 	vis := append([]byte(nil), cx.MatchingBytes()...)
 	var got []byte
 	var err error
